@@ -314,56 +314,80 @@ type h1Attr struct {
 	name string
 	typ  stun.AttrType
 	size int // expected size, -1 = any
-	get  func(m *stun.Message) (string, error)
+	get  func(m *stun.Message, dirty bool) (string, error) // dirty: decode into a receiver that already holds another value
 }
 
 func h1Attrs() []h1Attr {
 	return []h1Attr{
-		{"lifetime", stun.AttrLifetime, 4, func(m *stun.Message) (string, error) {
+		{"lifetime", stun.AttrLifetime, 4, func(m *stun.Message, dirty bool) (string, error) {
 			var l Lifetime
+			if dirty {
+				l.Duration = 12345 * time.Second
+			}
 			err := l.GetFrom(m)
 			return itoa(int64(l.Duration / time.Second)), err
 		}},
-		{"connid", stun.AttrConnectionID, 4, func(m *stun.Message) (string, error) {
+		{"connid", stun.AttrConnectionID, 4, func(m *stun.Message, dirty bool) (string, error) {
 			var c ConnectionID
+			if dirty {
+				c = 0xDEADBEEF
+			}
 			err := c.GetFrom(m)
 			return itoa(int64(c)), err
 		}},
-		{"channum", stun.AttrChannelNumber, 4, func(m *stun.Message) (string, error) {
+		{"channum", stun.AttrChannelNumber, 4, func(m *stun.Message, dirty bool) (string, error) {
 			var c ChannelNumber
+			if dirty {
+				c = 0x7FFE
+			}
 			err := c.GetFrom(m)
 			return itoa(int64(c)), err
 		}},
-		{"reqtrans", stun.AttrRequestedTransport, 4, func(m *stun.Message) (string, error) {
+		{"reqtrans", stun.AttrRequestedTransport, 4, func(m *stun.Message, dirty bool) (string, error) {
 			var c RequestedTransport
+			if dirty {
+				c.Protocol = 99
+			}
 			err := c.GetFrom(m)
 			return itoa(int64(c.Protocol)), err
 		}},
-		{"reqfam", stun.AttrRequestedAddressFamily, 4, func(m *stun.Message) (string, error) {
+		{"reqfam", stun.AttrRequestedAddressFamily, 4, func(m *stun.Message, dirty bool) (string, error) {
 			var c RequestedAddressFamily
+			if dirty {
+				c = RequestedFamilyIPv6
+			}
 			err := c.GetFrom(m)
 			return itoa(int64(c)), err
 		}},
-		{"evenport", stun.AttrEvenPort, 1, func(m *stun.Message) (string, error) {
+		{"evenport", stun.AttrEvenPort, 1, func(m *stun.Message, dirty bool) (string, error) {
 			var c EvenPort
+			if dirty {
+				c.ReservePort = true
+			}
 			err := c.GetFrom(m)
 			if c.ReservePort {
 				return "true", err
 			}
 			return "false", err
 		}},
-		{"rsrvtoken", stun.AttrReservationToken, 8, func(m *stun.Message) (string, error) {
+		{"rsrvtoken", stun.AttrReservationToken, 8, func(m *stun.Message, dirty bool) (string, error) {
 			var c ReservationToken
+			if dirty {
+				c = ReservationToken{9, 8, 7, 6, 5, 4, 3, 2, 1, 0, 1, 2}
+			}
 			err := c.GetFrom(m)
 			return vhHex(c), err
 		}},
-		{"dontfrag", stun.AttrDontFragment, 0, func(m *stun.Message) (string, error) {
+		{"dontfrag", stun.AttrDontFragment, 0, func(m *stun.Message, dirty bool) (string, error) {
 			var c DontFragment
 			err := c.GetFrom(m)
 			return "set", err
 		}},
-		{"data", stun.AttrData, -1, func(m *stun.Message) (string, error) {
+		{"data", stun.AttrData, -1, func(m *stun.Message, dirty bool) (string, error) {
 			var c Data
+			if dirty {
+				c = Data{9, 9, 9, 9, 9, 9, 9, 9, 9, 9, 9, 9, 9, 9, 9, 9, 9, 9, 9, 9}
+			}
 			err := c.GetFrom(m)
 			return vhHex(c), err
 		}},
@@ -410,7 +434,12 @@ func h1AttrGet(t *vhT, a h1Attr, raw *[]byte) {
 				t.Alarm("attr-get-panics", "%s get %s: %v", a.name, arg, r)
 			}
 		}()
-		v, err = a.get(h1Msg(raw, a.typ))
+		v, err = a.get(h1Msg(raw, a.typ), false)
+		// a decoder is a function of the message: the same message decoded into a receiver that already holds
+		// another value must give the same result
+		if v2, err2 := a.get(h1Msg(raw, a.typ), true); (err == nil) != (err2 == nil) || (err == nil && v2 != v) {
+			t.Alarm("attr-get-stateful", "%s get %s: %q into a fresh value, %q (err=%v) into a used one", a.name, arg, v, v2, err2)
+		}
 	}()
 	if err != nil {
 		t.Obs("err %s", h1ErrKind(err))
